@@ -125,6 +125,20 @@ class MaybeNaN:
     def __repr__(self):
         return f"MaybeNaN({self.nan}, {self.value})"
 
+    def _num(self):
+        """the numeric value, when the path condition excludes NaN (e.g. after selection by ~isnan)"""
+        if ctx().entails(z3.Not(self.nan)):
+            return self.value
+        raise Unsupported("arithmetic on a value that may be NaN")
+
+    def __add__(self, o): return self._num() + o
+    def __radd__(self, o): return o + self._num()
+    def __sub__(self, o): return self._num() - o
+    def __rsub__(self, o): return o - self._num()
+    def __mul__(self, o): return self._num() * o
+    def __rmul__(self, o): return o * self._num()
+    def __neg__(self): return -self._num()
+
 
 def s_isnan(x):
     if type(x) is MaybeNaN:
@@ -245,6 +259,8 @@ class nd:
         o._alias = (alias._alias if (alias is not None and alias._alias is not None) else alias)
         o._epoch = _epoch()
         o._stale = False
+        if like is not None and not data and getattr(like, "_sh", None) is not None and not like._d:
+            o._sh = like._sh
         if like is not None:
             like._chk()
         if like is not None and hasattr(o, "__array_finalize__"):
@@ -262,6 +278,8 @@ class nd:
         o._alias = self._alias
         o._epoch = self._epoch
         o._stale = False
+        if getattr(self, "_sh", None) is not None:
+            o._sh = self._sh
         if hasattr(o, "__array_finalize__"):
             o.__array_finalize__(self)
         return o
@@ -272,6 +290,9 @@ class nd:
     # ---- basic attributes ----------------------------------------------------------------------------------------
     @property
     def shape(self):
+        sh = getattr(self, "_sh", None)
+        if sh is not None and not self._d:
+            return sh
         return _shape(self._d)
 
     @property
@@ -311,6 +332,8 @@ class nd:
     @property
     def T(self):
         sh = self.shape
+        if len(sh) == 2 and sh[0] == 0:
+            return nd._wrap([[] for _ in range(sh[1])], self, alias=self)
         if len(sh) <= 1:
             return nd._wrap(_map(lambda x: x, self._d), self, alias=self)
         rsh = tuple(reversed(sh))
@@ -423,7 +446,12 @@ class nd:
         if type(data) is MaskedSel:
             return data
         if isinstance(data, list):
-            return nd._wrap(data, self, alias=self)
+            out = nd._wrap(data, self, alias=self)
+            if not data and len(self.shape) >= 2:
+                k0 = key[0] if isinstance(key, tuple) else key
+                if isi(k0, nd) or isinstance(k0, (list, slice)):
+                    out._sh = (0,) + tuple(self.shape[1:])      # all rows deselected: numpy keeps the trailing dimensions
+            return out
         return data
 
     def __setitem__(self, key, value):
@@ -463,6 +491,10 @@ def _cast(x, dtype):
 
 
 def _smul(a, b):
+    if type(a) is MaybeNaN:
+        a = a._num()
+    if type(b) is MaybeNaN:
+        b = b._num()
     fa = type(a) is float
     fb = type(b) is float
     if (fa and math.isnan(a)) or (fb and math.isnan(b)):
@@ -522,8 +554,9 @@ def _index(d, key, owner):
         key = (key,)
     if len(key) == 1 and (isi(key[0], nd) or isinstance(key[0], list)) and _is_mask(key[0]):
         m0 = _todata(key[0])
-        if len(_shape(m0)) == 1 and any(type(x) is SBool for x in m0) and len(m0) == len(d) and not isinstance(d[0] if d else 0, list):
-            return MaskedSel(list(d), list(m0))
+        if owner is not None and d is owner._d and len(_shape(m0)) == 1 and any(type(x) is SBool for x in m0) \
+                and len(m0) == len(d) and not isinstance(d[0] if d else 0, list):
+            return MaskedSel(list(d), list(m0))     # only for `y[m]` on a 1-D array itself (never inside a recursion)
         m = _concretise_mask(m0)
         msh = _shape(m)
         if len(msh) == 1:
@@ -536,7 +569,7 @@ def _index(d, key, owner):
         return [_index(d, rest, owner)] if rest else [d]
     if isinstance(k0, slice):
         sel = d[k0]
-        return [_index(x, rest, owner) for x in sel] if rest else sel
+        return [_index(x, rest, None) for x in sel] if rest else sel
     if isi(k0, nd) or isinstance(k0, list):
         kd = _todata(k0)
         if _is_mask(kd):
@@ -764,7 +797,9 @@ def argwhere(m):
     m = asarray(m)
     cm = _concretise_mask(m._d)
     if len(m.shape) == 1:
-        return nd([[i] for i, keep in enumerate(cm) if keep])
+        out = nd([[i] for i, keep in enumerate(cm) if keep])
+        out._sh = (0, 1)
+        return out
     raise Unsupported("argwhere on a matrix")
 
 
